@@ -274,9 +274,27 @@ theorem cldPre_findPair (a : Agent) (m : Msg) (l r : Cand)
     rw [findPair_modPair _ _ (reqMark m) (fun _ => rfl) (fun _ => rfl), hnew]
     exact ⟨_, rfl, by simp [reqMark]⟩
 
+/-- `cldPre` (find or add the pair, count the request) creates no deferred value -/
+theorem cldPre_noDefer (a : Agent) (m : Msg) (l r : Cand) (hnd : NoDefer a) :
+    ∀ p ∈ (cldPre a m l r).1.checklist, p.deferredNom = none := by
+  unfold cldPre
+  split
+  · intro p hp
+    obtain ⟨q, hq, h | h⟩ := mem_updPair (l := a.checklist) hp
+    · rw [h.2]; exact hnd q hq
+    · rw [h.2]; exact hnd q hq
+  · intro p hp
+    obtain ⟨q, hq, h | h⟩ := mem_updPair (l := (a.addPair l r).1.checklist) hp
+    all_goals
+      rw [h.2]
+      simp only [Agent.addPair, List.mem_append, List.mem_singleton] at hq
+      rcases hq with hq | hq
+      · first | exact hnd q hq | (show (reqMark m q).deferredNom = none; exact hnd q hq)
+      · first | (rw [hq]; rfl) | rw [hq]
+
 /-- the nomination block of a full agent on a USE-CANDIDATE request, case by case -/
 theorem cldNom_full (a : Agent) (id : Nat) (m : Msg) (hfull : a.cfg.lite = false)
-    (hn : (m.useCand || m.nom.isSome) = true) :
+    (hn : (m.useCand || m.nom.isSome) = true) (hnd : ∀ p, a.pairById id = some p → p.deferredNom = none) :
     (a.pairById id = none ∧ cldNom a id m = (a, [])) ∨
     (∃ p, a.pairById id = some p ∧ p.state = .succeeded ∧ cldSw a id m p = true ∧ cldNom a id m = a.select id) ∨
     (∃ p, a.pairById id = some p ∧ p.state = .succeeded ∧ cldSw a id m p = false ∧ cldNom a id m = (a, [])) ∨
@@ -298,6 +316,8 @@ theorem cldNom_full (a : Agent) (id : Nat) (m : Msg) (hfull : a.cfg.lite = false
       | true => exact Or.inr (Or.inl ⟨p, rfl, hs, by first | exact hsw | rfl, by simp⟩)
     · have e : (p.state == PairState.succeeded) = false := by simp [hs]
       simp only [e, Bool.false_eq_true, if_false]
+      have hd : (m.nom.isSome || p.deferredNom.isNone) = true := by rw [hnd p hp]; simp
+      rw [if_pos hd]
       exact Or.inr (Or.inr (Or.inr ⟨p, rfl, hs, by first | rfl | trivial⟩))
 
 theorem cldSw_false_selected (a : Agent) (id : Nat) (m : Msg) (p : Pair) (h : cldSw a id m p = false) :
@@ -322,7 +342,7 @@ theorem cldPing_fire (a : Agent) (now : Nat) (l r : Cand) (id : Nat) (p : Pair) 
 of the request is marked and a check of its own (sent from a state `b` with the agent's credentials and role) is
 pending. -/
 theorem cldHandleRequest_nominates (a : Agent) (now : Nat) (m : Msg) (l r : Cand) (hfull : a.cfg.lite = false)
-    (huc : m.useCand = true) (hnom : m.nom = none) (hp : PendOK a)
+    (huc : m.useCand = true) (hnom : m.nom = none) (hp : PendOK a) (hnd : NoDefer a)
     (hl : ∃ l', a.localOf l.uid = some l' ∧ l'.equal l = true)
     (hr : ∃ r', a.remoteOf r.uid = some r' ∧ r'.equal r = true) :
     (a.cldHandleRequest now m l r).1.selected.isSome = true ∨
@@ -335,14 +355,15 @@ theorem cldHandleRequest_nominates (a : Agent) (now : Nat) (m : Msg) (l r : Cand
   simp only [hcond, Bool.false_eq_true, if_false]
   obtain ⟨q0, hq0, hq0id⟩ := cldPre_findPair a m l r hl hr
   obtain ⟨hc0, _, hrem0, _, hpend0, hnt0⟩ := cldPre_frame a m l r
+  have hnd0 : ∀ p ∈ (cldPre a m l r).1.checklist, p.deferredNom = none := cldPre_noDefer a m l r hnd
   generalize (cldPre a m l r).2 = id at hq0id ⊢
-  generalize (cldPre a m l r).1 = A0 at hq0 hc0 hrem0 hpend0 hnt0 ⊢
+  generalize (cldPre a m l r).1 = A0 at hq0 hc0 hrem0 hpend0 hnt0 hnd0 ⊢
   have hfull0 : A0.cfg.lite = false := by
     have : A0.cfg = a.cfg := congrArg Core.cfg hc0
     rw [this]; exact hfull
   have hP0 : PendOK A0 := PendOK.of_eq hpend0 hnt0 (congrArg Core.tag hc0) hp
   have hmem0 : q0 ∈ A0.checklist := findPair_mem hq0
-  rcases cldNom_full A0 id m hfull0 (by simp [huc]) with ⟨hnone, _⟩ | ⟨p, _, _, _, e⟩ | ⟨p, _, _, hsw, e⟩ | ⟨p, hpp, hs, e⟩
+  rcases cldNom_full A0 id m hfull0 (by simp [huc]) (fun p hp => hnd0 p (pairById_mem hp).1) with ⟨hnone, _⟩ | ⟨p, _, _, _, e⟩ | ⟨p, _, _, hsw, e⟩ | ⟨p, hpp, hs, e⟩
   · exfalso
     unfold Agent.pairById at hnone
     rw [List.find?_eq_none] at hnone
